@@ -45,7 +45,9 @@ def gen_lines(rng, depth=0, max_items=6, in_block=False, in_cond=False):
         elif r < 0.59 and MACROS[0]:
             out.append((depth, f"{thr}Call macro: M{rng.randint(1, 4)}"))
         elif r < 0.62:
-            out.append((depth, f"{thr}Wait: {rng.choice(['0 s', '0.5 s', '1 s', '1.5 s', '2 s'])}"))
+            # durations in min / h too (get_duration_end converts them); none whose end minus the 0.1 s correction falls on
+            # a tick time (multiples of 0.5 s), where float rounding would decide
+            out.append((depth, f"{thr}Wait: {rng.choice(['0 s', '0.5 s', '1 s', '1.5 s', '2 s', '0.02 min', '0.03 min', '0.002 h'])}"))
         elif r < 0.70:
             out.append((depth, f"{thr}Noop: {rng.choice([0, 1, 2, 3])}"))
         elif r < 0.80:
@@ -192,7 +194,9 @@ def kind_coq(k):
     if k[0] == "KWait":
         arg = (k[1] or "").strip()
         num = arg.split()[0] if arg else "0"
-        return f"(KWait {z(int(round(float(num) * 10)))})"
+        unit = arg.split()[1] if len(arg.split()) > 1 else "s"
+        factor = {"s": 1, "min": 60, "h": 3600}[unit]
+        return f"(KWait {z(int(round(float(num) * factor * 10)))})"
     if k[0] == "KNoop":
         return f"(KNoop {nat(k[1])})"
     if k[0] in ("KMacro", "KCallMacro"):
